@@ -67,10 +67,10 @@ def directed_cases():
 def build_cases(ctx: Ctx):
     rng = random.Random(ctx.seed * 7919 + 101)
     cases = directed_cases()
-    n_random = 34 if ctx.quick else 260
+    n_random = 22 if ctx.quick else 260       # (a level-1 compile of a 3-4 qubit circuit costs 5-15 CPU seconds)
     for i in range(n_random):
         if ctx.quick:
-            n = rng.choice([1, 2, 2, 3, 3, 3, 4, 4])
+            n = rng.choice([1, 2, 2, 3, 3, 3, 3, 4])
             level = rng.choice([1, 1, 1, 2])
         else:
             n = rng.choice([1, 2, 3, 3, 4, 4, 5, 5, 6])
@@ -94,7 +94,7 @@ def key_of(case, res, clause):
     k = {'clause': clause, 'kind': case['kind'], 'radix': case['radix'], 'level': case['level'], 'gateset': m.get('gs', 'default'),
          'wider': bool(m) and m['n'] > case['n']}
     if clause == 'compile-raised':
-        k.update(exc=res.get('exc', ''), where=res.get('where', ''))
+        k.update(exc=res.get('exc', ''), where=res.get('where', ''), msg=cc.exc_msg(res.get('excline', '')))
     return k
 
 
@@ -105,7 +105,7 @@ def run(ctx: Ctx) -> Outcome:
         cases = [ctx.replay['replay']['case']]
     else:
         cases = build_cases(ctx)
-    results = cc.run_compile_cases(cases, procs=12)
+    results = cc.run_compile_cases(cases, procs=14)
     sem, keep = [], []
     timeouts = herr = 0
     for c, r in zip(cases, results):
@@ -123,7 +123,7 @@ def run(ctx: Ctx) -> Outcome:
         raise MachineryError('%d of %d cases failed inside the harness: %s' % (herr, len(cases), [r.get('tb') for r in results if r['status'] == 'harness-error'][:1]))
     if not sem:
         raise MachineryError('no case produced an observation')
-    verdicts, states, trans, _ = exact.par_validate(SPEC, CFG, sem, ctx.scratch, groups=min(8, len(sem)), chunk=400)
+    verdicts, states, trans, selftest = cc.validate_with_selftest(SPEC, CFG, sem, ctx.scratch, 3, 'C01')
     for idx, _step, clause, _extra in verdicts:
         c, r = keep[idx]
         detail = ('compile() of a %d-qudit radix-%d circuit at optimization_level=%d for model %s with %d workers: clause %s\ninput ops: %s\nresult: %s'
@@ -133,7 +133,9 @@ def run(ctx: Ctx) -> Outcome:
         out.violations.append(Violation('C01', clause, key_of(c, r, clause), detail, {'case': c}))
     feats = {'wide': 0, 'barrier': 0, 'measure': 0, 'block': 0}
     nontrivial = set()
-    by = {'level': {}, 'width': {}, 'gateset': {}, 'topo': {}, 'workers': {}, 'wider': 0, 'nonidentity_final_mapping': 0, 'raised': 0}
+    by = {'level': {}, 'width': {}, 'gateset': {}, 'topo': {}, 'workers': {}, 'wider': 0, 'nonidentity_final_mapping': 0, 'raised': 0, 'rejected': 0}
+    # how often each clause of CompileSem.tla had something to decide (bookkeeping over the inputs, not a verdict)
+    decided = {'compile-raised': len(keep), 'mapping-out-of-range': 0, 'mapping-not-injective': 0, 'semantics-differ': 0, 'measurement-misplaced': 0}
     for c, r in keep:
         f = cc.input_features(c)
         for k in feats:
@@ -145,17 +147,22 @@ def run(ctx: Ctx) -> Outcome:
         if r['status'] == 'ok':
             o = r['results'][0]
             by['nonidentity_final_mapping'] += o['pf'] != list(range(c['n']))
+            decided['mapping-out-of-range'] += 1
+            decided['mapping-not-injective'] += c['n'] >= 2
+            decided['semantics-differ'] += 1
+            decided['measurement-misplaced'] += bool(f['measure'])
             if any(len(x['loc']) >= 2 for x in c['ops']) or f['measure']:
                 nontrivial.add(common.digest([c['ops'], c.get('model'), c['level']]))
         else:
-            by['raised'] += 1
+            by['raised' if r['status'] == 'raised' else 'rejected'] += 1
     out.coverage = {
         'states': states, 'transitions': trans,
         'traces_validated_against_impl': len(sem), 'evaluations': len(cases), 'distinct_nontrivial': len(nontrivial),
         'rule': 'one case = one compile() call on the real runtime (input circuit, model, level, workers, schedule seed) with its '
                 'observed action on every embedded basis state; directed cases + seeded random; non-trivial = compile returned and the '
                 'input has a multi-qudit operation or a measurement; distinct by hash of (input ops, model, level)',
-        'by': by, 'input_features': feats, 'timeouts': timeouts, 'harness_errors': herr,
+        'by': by, 'input_features': feats, 'timeouts': timeouts, 'harness_errors': herr, 'clause_decisions': decided, 'oracle_selftest': selftest,
+        'compile_cpu_s': round(sum(r.get('cpu', 0) for _, r in keep), 1),
         'basis_states_compared': sum(len(o['bs']) for _, r in keep if r['status'] == 'ok' for o in r['results']),
         'compile_wall_s': round(sum(r.get('wall', 0) for _, r in keep), 1),
         'samples': [{'case': {k: v for k, v in c.items()}, 'result': cc.short_result(r)} for c, r in keep[:1] + keep[len(keep) // 2:len(keep) // 2 + 1]],
